@@ -2,6 +2,7 @@
 From Coq Require Import ZArith Bool List Lia.
 From MomoCommon Require Import GenPrelude.
 From C18 Require Import Model.
+From C18 Require Gen_Bits.
 Local Open Scope Z_scope.
 
 Lemma land_pow2 a k : 0 <= k -> Z.land a (2 ^ k) = if Z.testbit a k then 2 ^ k else 0.
@@ -64,3 +65,26 @@ Proof.
     destruct (Z.eqb_spec (i mod 8) (j mod 8)); destruct (Z.eqb_spec i j); auto; lia.
   - rewrite upd_other by auto. destruct (Z.eqb_spec i j); [subst; contradiction|reflexivity].
 Qed.
+
+(* ---------- the cxx2coq translations of the real UIntMath<uint8_t>::GetBit / SetBit (Gen_Bits.v, pointer parameter as an
+   array) are the bit functions of the model, for every non-negative bit index ---------- *)
+Lemma GetBit_refines b j : 0 <= j -> Gen_Bits.GetBit b j = GetBit b j.
+Proof.
+  intros Hj. unfold Gen_Bits.GetBit, GetBit. cbv zeta.
+  rewrite (wrapU_small 64 (1 * 8)) by (simpl; lia). change (1 * 8) with 8.
+  destruct (mask_eq j Hj) as (E & B & P). rewrite E.
+  rewrite (wrapU_small 8 (j mod 8)) by (simpl; lia). rewrite Z.shiftl_1_l. reflexivity.
+Qed.
+
+Lemma SetBit_refines b j : 0 <= j -> Gen_Bits.SetBit b j = SetBit b j.
+Proof.
+  intros Hj. unfold Gen_Bits.SetBit, SetBit. cbv zeta.
+  rewrite (wrapU_small 64 (1 * 8)) by (simpl; lia). change (1 * 8) with 8.
+  destruct (mask_eq j Hj) as (E & B & P). rewrite E.
+  rewrite (wrapU_small 8 (j mod 8)) by (simpl; lia). rewrite Z.shiftl_1_l. reflexivity.
+Qed.
+
+(* hence the law of the bit array holds for the generated functions *)
+Theorem generated_GetBit_SetBit b i j : 0 <= i -> 0 <= j -> bytes_ok b ->
+  Gen_Bits.GetBit (Gen_Bits.SetBit b i) j = Z.eqb i j || Gen_Bits.GetBit b j.
+Proof. intros Hi Hj Hb. rewrite SetBit_refines, !GetBit_refines by auto. apply GetBit_SetBit; auto. Qed.
